@@ -280,3 +280,8 @@ C09_E2_EXCEPTIONS = {
     'midnight_circuits::map::map_gadget::MapGadget::update_state|capture:state':
         dict(containment='cpu-state', types=['map_gadget::State', 'map::cpu::MapMt'], reason='off-circuit Merkle-map state; only feeds later witness values'),
 }
+
+# ---------------------------------------------------------------- C08
+C08_NO_DIRECT_PII = {
+    'midnight_circuits::verifier::msm::AssignedMsm': 'exposed only as part of AssignedAccumulator (VerifierGadget impl), through AssignedMsm::{in_circuit_as_public_input, constrain_as_public_input}',
+}
